@@ -875,9 +875,13 @@ Fixpoint alloc_all {A} (f : A -> M nat) (l : list A) : M (list nat) :=
 Definition restructure (X : node) (x : nat) (dt : option str) : M unit :=
   (if negb (base dt) && negb (is_varies dt) && opt_is_some dt && negb (opt_eqb dt (n_dt X)) && opt_is_some (n_dt X)
    then
-     match dt, n_st X with
-     | Some d, Some st =>
+     match dt with
+     | Some d =>
+         (* load_reference(datatype, 'Datatypes_Structs') comes first: a datatype without a structure in this version
+            (CE in 2.7) is ChildNotFound whatever the element looks like *)
          if negb (has_struct t d) then raise (HL7 EChildNotFound) else
+         match n_st X with
+         | Some st =>
          let! st' := lift (match st_reference st with
                            | SLeaf i => parse_structure t (SLeaf (mk_info dt (i_long i) (i_table i) (i_maxlen i)))
                            | SSeqDt i | SSeqIn false _ (Some i) =>
@@ -890,7 +894,9 @@ Definition restructure (X : node) (x : nat) (dt : option str) : M unit :=
                            | _ => Err (Crash IndexError)
                            end) in
          set_st x (Some st')
-     | _, _ => raise (Crash AttributeError)
+         | None => raise (Crash AttributeError)
+         end
+     | None => raise (Crash AttributeError)
      end
    else ret tt).
 
